@@ -60,6 +60,13 @@ FIXED = {
                  'assocs': [A(6, 'subsuper', 'T1', ['Id'], False, True, '', 'S', ['Id'], False, ''),
                             A(6, 'subsuper', 'T2', ['Id'], False, True, '', 'S', ['Id'], False, '')],
                  'uniques': [{'cls': 'S', 'name': 'I1', 'attrs': ['Id']}]},
+    # one referential attribute formalising two associations; identifying values 0 (the default) and 5
+    'shared': {'classes': [{'name': 'P', 'attrs': [['Nr', 'INTEGER']]},
+                           {'name': 'Q', 'attrs': [['Nr', 'INTEGER']]},
+                           {'name': 'C', 'attrs': [['Id', 'UNIQUE_ID'], ['Ref', 'INTEGER']]}],
+               'assocs': [A(7, 'simple', 'C', ['Ref'], True, True, '', 'P', ['Nr'], True, ''),
+                          A(8, 'simple', 'C', ['Ref'], True, True, '', 'Q', ['Nr'], True, '')],
+               'uniques': [{'cls': 'P', 'name': 'I1', 'attrs': ['Nr']}, {'cls': 'Q', 'name': 'I1', 'attrs': ['Nr']}]},
 }
 
 # initial instances (class names) and the alphabet of concrete calls per fixed schema;
@@ -71,6 +78,7 @@ FIXED_INIT = {
     'reflexive': ['P', 'P', 'P'],
     'assoc': ['X', 'X', 'Y', 'L', 'L'],
     'subsuper': ['S', 'S', 'T1', 'T2', 'T1'],
+    'shared': [['P', {'Nr': 0}], ['P', {'Nr': 5}], ['Q', {'Nr': 0}], ['Q', {'Nr': 5}], 'C', 'C'],
 }
 
 
@@ -120,6 +128,13 @@ def fixed_alphabet(name):
                [R, 2, 3, 6, None, False],                 # subtype to subtype
                [D, 0, True], [D, 2, True], [D, 3, False], [R, 2, 0, 'x', None, False]]
         ops[-1] = [R, 2, 0, 60, None, False]
+        return ops
+    if name == 'shared':
+        ops = [[R, 4, 0, 7, None, False], [R, 4, 1, 7, None, False], [R, 4, 2, 8, None, False], [R, 4, 3, 8, '', True],
+               [R, 5, 0, 7, None, False], [R, 2, 5, 8, None, False],
+               [U, 4, 0, 7, None, False], [U, 4, 1, 7, None, False], [U, 4, 2, 8, None, False], [U, 3, 4, 8, None, False],
+               [R, 4, 2, 7, None, False],                 # Q is not on R7
+               [D, 0, True], [D, 2, False], [D, 4, True], ['new', 'C']]
         return ops
     raise KeyError(name)
 
